@@ -7,7 +7,8 @@ Section Gen.
 Variable fixed : bool.
 
 Definition pre (c : cfg) (s : state) (prev : option (nat * outcome)) (i : nat) : hres :=
-  match prev with None => HRetry s [] | Some (t, o) => handle fixed c s t o (pred i) end.
+  if c_interruptible c && killed s && negb (c_async c && (i =? 0)) then HDone RError []
+  else match prev with None => HRetry s [] | Some (t, o) => handle fixed c s t o (pred i) end.
 
 Lemma loop_unfold c script s prev i :
   loop_gen fixed c script s prev i =
@@ -19,12 +20,12 @@ Lemma loop_unfold c script s prev i :
       | SDone r evs2 => (evs1 ++ evs2, r)
       | SSent s2 t evs2 =>
           let ev := EAtt t (q_rr s2) (q_stale s2) (q_retry s2) in
-          let s3 := after_send s2 t in
+          let s3 := raise_att c i (after_send s2 t) in
           match script with
-          | [] => (evs1 ++ evs2 ++ [ev], RSuccess i)
-          | OSuccess :: _ => (evs1 ++ evs2 ++ [ev], RSuccess i)
+          | [] => (evs1 ++ evs2 ++ [ev], if dead s2 then RError else RSuccess i)
+          | OSuccess :: _ => (evs1 ++ evs2 ++ [ev], if dead s2 then RError else RSuccess i)
           | o :: rest =>
-              let '(evs, r) := loop_gen fixed c rest s3 (Some (t, o)) (S i) in
+              let '(evs, r) := loop_gen fixed c rest s3 (Some (t, if dead s2 then ORpcErr Reachable else o)) (S i) in
               (evs1 ++ evs2 ++ ev :: evs, r)
           end
       end
@@ -34,12 +35,17 @@ Proof. destruct script; reflexivity. Qed.
 Lemma pre_spec c s prev i :
   match pre c s prev i with
   | HRetry s' evs => room s' <= room s + n_rearms evs /\ n_attempts evs = 0
-  | HDone _ evs => evs = []
+  | HDone _ evs => quiet evs
   end.
-Proof. unfold pre. destruct prev as [[t o]|]; [apply handle_spec|]. simpl. split; [lia|reflexivity]. Qed.
+Proof.
+  unfold pre. destruct (c_interruptible c && killed s && _); [auto|].
+  destruct prev as [[t o]|]; [apply handle_spec|]. simpl. split; [lia|reflexivity].
+Qed.
 
 Lemma after_send_atts s t : atts (after_send s t) = atts s.
 Proof. unfold after_send. destruct (rt_eqb _ _); atts_norm; reflexivity. Qed.
+Lemma raise_att_atts c i s : atts (raise_att c i s) = atts s.
+Proof. reflexivity. Qed.
 
 Lemma n_attempts_cons_att t a b d evs : n_attempts (EAtt t a b d :: evs) = S (n_attempts evs).
 Proof. reflexivity. Qed.
@@ -51,17 +57,17 @@ Lemma loop_bound c script : forall s prev i,
 Proof.
   induction script as [|o rest IH]; intros s prev i; rewrite loop_unfold;
     pose proof (pre_spec c s prev i) as P; destruct (pre c s prev i) as [s1 evs1|r evs1];
-    try (subst evs1; cbn; lia); destruct P as [P1 P2]; cbv zeta;
+    try (destruct P as [P1 P2]; cbn [fst]; lia); destruct P as [P1 P2]; cbv zeta;
     set (s1' := if 0 <? i then set_q_retry true s1 else s1);
     assert (R1 : room s1' = room s1) by (subst s1'; destruct (0 <? i); reflexivity);
     pose proof (sel_phase_spec c s1') as Q; destruct (sel_phase c s1') as [s2 t evs2|r evs2].
   all: try (destruct Q as [Q1 Q2]; cbn [fst]; rewrite n_attempts_app, n_rearms_app; lia).
   all: destruct Q as (Q1 & Q2 & Q3).
   - cbn [fst]. rewrite !n_attempts_app, !n_rearms_app. cbn. lia.
-  - assert (S3 : room (after_send s2 t) = room s2) by (apply room_eq, after_send_atts).
-    specialize (IH (after_send s2 t) (Some (t, o)) (S i)).
+  - assert (S3 : room (raise_att c i (after_send s2 t)) = room s2) by (apply room_eq; rewrite raise_att_atts; apply after_send_atts).
+    specialize (IH (raise_att c i (after_send s2 t)) (Some (t, if dead s2 then ORpcErr Reachable else o)) (S i)).
     destruct o; try (cbn [fst]; rewrite !n_attempts_app, !n_rearms_app; cbn; lia);
-      destruct (loop_gen fixed c rest (after_send s2 t) _ (S i)) as [evs r]; cbn [fst] in *;
+      destruct (loop_gen fixed c rest (raise_att c i (after_send s2 t)) _ (S i)) as [evs r]; cbn [fst] in *;
       rewrite !n_attempts_app, !n_rearms_app, n_attempts_cons_att, n_rearms_cons_att; lia.
 Qed.
 
@@ -94,7 +100,7 @@ Proof.
     try (match goal with |- context [on_busy ?a ?b ?c ?d] => pose proof (on_busy_spec a b c d) as X; destruct (on_busy a b c d) end);
     repeat match goal with |- context [if ?b then _ else _] => destruct b end;
     try (match goal with |- context [on_busy ?a ?b ?c ?d] => pose proof (on_busy_spec a b c d) as X; destruct (on_busy a b c d) end);
-    try (destruct X as (_ & _ & ->)); try (subst; cbn; lia); try (cbn; lia).
+    try (destruct X as (_ & _ & ->)); try (destruct X as (_ & ->)); try (subst; cbn; lia); try (cbn; lia).
   all: unfold on_not_leader_hint; cbv beta iota zeta; repeat match goal with |- context [if ?b then _ else _] => destruct b end;
     unfold n_rearms; cbn [filter is_rearm length]; lia.
 Qed.
@@ -103,6 +109,7 @@ Lemma loop_rearms c script : forall s t o i,
   n_rearms (fst (loop_gen fixed c script s (Some (t, o)) i)) <= (if is_hint o then 1 else 0) + n_hints script.
 Proof.
   induction script as [|o' rest IH]; intros s t o i; rewrite loop_unfold; unfold pre;
+    (destruct (c_interruptible c && killed s && _); [cbn [fst n_rearms filter length]; lia|]);
     pose proof (handle_rearms c s t o (pred i)) as P; destruct (handle fixed c s t o (pred i)) as [s1 evs1|r evs1];
     try (cbn [fst]; lia); cbv zeta;
     set (s1' := if 0 <? i then set_q_retry true s1 else s1);
@@ -110,23 +117,26 @@ Proof.
   all: try (destruct Q as [Q1 Q2]; cbn [fst]; rewrite n_rearms_app; lia).
   all: destruct Q as (Q1 & Q2 & Q3).
   - cbn [fst]. rewrite !n_rearms_app. cbn. lia.
-  - specialize (IH (after_send s2 t2) t2 o' (S i)). unfold n_hints in *. cbn [filter].
+  - specialize (IH (raise_att c i (after_send s2 t2)) t2 (if dead s2 then ORpcErr Reachable else o') (S i)). unfold n_hints in *. cbn [filter].
+    destruct (dead s2);
     destruct o'; cbn [is_hint length] in *; try (cbn [fst]; rewrite !n_rearms_app; cbn; lia);
-      destruct (loop_gen fixed c rest (after_send s2 t2) _ (S i)) as [evs r]; cbn [fst] in *;
+      destruct (loop_gen fixed c rest (raise_att c i (after_send s2 t2)) _ (S i)) as [evs r]; cbn [fst] in *;
       rewrite !n_rearms_app, n_rearms_cons_att; lia.
 Qed.
 
 Lemma run_rearms c script rands sleeps : n_rearms (fst (run_gen fixed c script rands sleeps)) <= n_hints script.
 Proof.
   unfold run_gen. destruct (validation_refuses c); [cbn; lia|].
-  set (s := init_state c rands sleeps). rewrite loop_unfold. cbn [pre]. cbv zeta. cbn [Nat.ltb Nat.leb].
+  set (s := init_state c rands sleeps). rewrite loop_unfold. unfold pre.
+  destruct (c_interruptible c && killed s && _); [cbn [fst n_rearms filter length]; lia|]. cbv zeta. cbn [Nat.ltb Nat.leb].
   pose proof (sel_phase_spec c s) as Q; destruct (sel_phase c s) as [s2 t2 evs2|r evs2].
   2: { destruct Q as [Q1 Q2]. cbn [fst app]. lia. }
   destruct Q as (Q1 & Q2 & Q3).
   destruct script as [|o rest]; [cbn [fst app]; rewrite n_rearms_app; cbn; lia|].
-  pose proof (loop_rearms c rest (after_send s2 t2) t2 o 1) as L. unfold n_hints in *. cbn [filter].
+  pose proof (loop_rearms c rest (raise_att c 0 (after_send s2 t2)) t2 (if dead s2 then ORpcErr Reachable else o) 1) as L. unfold n_hints in *. cbn [filter].
+  destruct (dead s2);
   destruct o; cbn [is_hint length] in *; try (cbn [fst app]; rewrite !n_rearms_app; cbn; lia);
-    destruct (loop_gen fixed c rest (after_send s2 t2) _ 1) as [evs r]; cbn [fst app] in *;
+    destruct (loop_gen fixed c rest (raise_att c 0 (after_send s2 t2)) _ 1) as [evs r]; cbn [fst app] in *;
     rewrite !n_rearms_app, n_rearms_cons_att; lia.
 Qed.
 
